@@ -295,4 +295,94 @@ def DomTransit (c : Cfg) (timeout height : Nat) : Prop :=
 
 instance (c : Cfg) (t h : Nat) : Decidable (DomTransit c t h) := by unfold DomTransit; infer_instance
 
+/-! ## Level 2: the switch choosing among parallel links to the next peer
+
+`Switch.handlePacketAdd` (htlcswitch/switch.go): collect `interfaceLinks` (all links to the
+next peer, in Go's map-iteration order = arbitrary), scan them building `destinations` (links
+that are `EligibleToForward` and whose `CheckHtlcForward` returned nil) and the map
+`linkErrs[scid]`, fail with the requested link's error when `destinations` is empty, otherwise
+forward over `destinations[rand.Intn(len(destinations))]`.  Not modelled: `RejectHTLC`,
+circular-route check, alias mapping, dust/fee-exposure check after the choice. -/
+
+/-- One candidate link to the next peer. -/
+structure Cand where
+  scid : Nat
+  eligible : Bool
+  p : Policy
+  c : Cfg
+  deriving Repr, DecidableEq
+
+/-- Failure returned by the switch for an add. -/
+inductive SwFailure
+  | notEligible        -- FailUnknownNextPeer + OutgoingFailureLinkNotEligible (forward path)
+  | localNotEligible   -- FailTemporaryChannelFailure + OutgoingFailureLinkNotEligible (getLocalLink)
+  | unknownNextPeer    -- FailUnknownNextPeer
+  | link (v : Verdict) -- the failure of that link's CheckHtlcForward / CheckHtlcTransit
+  deriving Repr, DecidableEq
+
+def SwFailure.wire : SwFailure → String
+  | .notEligible => "UnknownNextPeer/LinkNotEligible"
+  | .localNotEligible => "TemporaryChannelFailure/LinkNotEligible"
+  | .unknownNextPeer => "UnknownNextPeer"
+  | .link v => v.wire
+
+def SwFailure.payload (i : Inputs) : SwFailure → Int
+  | .link v => v.payload i
+  | _ => -1
+
+/-- Outcome of `handlePacketAdd` / `getLocalLink`. -/
+inductive SwOutcome
+  | forward (scid : Nat)   -- the add was handed to the link with this short channel id
+  | fail (f : SwFailure)
+  deriving Repr, DecidableEq
+
+namespace Gen
+
+/-- Body of the scan loop for one link: `none` = goes to `destinations`. -/
+def linkFailure (l : Cand) (i : Inputs) : Option SwFailure :=
+  if l.eligible = false then some .notEligible
+  else match checkHtlcForward l.p l.c i with
+    | .accept => none
+    | v => some (.link v)
+
+/-- State of the scan loop: `destinations` and the map `linkErrs`. -/
+structure Scan where
+  dests : List Cand
+  errs : Nat → Option SwFailure
+
+def scanStep (i : Inputs) (st : Scan) (l : Cand) : Scan :=
+  match linkFailure l i with
+  | none => { st with dests := st.dests ++ [l] }
+  | some f => { st with errs := fun k => if k = l.scid then some f else st.errs k }
+
+/-- `for _, link := range interfaceLinks { … }`. -/
+def scanLinks (links : List Cand) (i : Inputs) : Scan :=
+  links.foldl (scanStep i) ⟨[], fun _ => none⟩
+
+/-- `handlePacketAdd` after the candidate links are known. `nodeMode`: the next hop is a node id
+    (blinded route), `req`: requested short channel id otherwise, `links`: `interfaceLinks` in the
+    order of iteration, `r`: the value drawn by `rand.Intn` (any natural; reduced mod length). -/
+def handlePacketAdd (nodeMode : Bool) (req : Nat) (links : List Cand) (r : Nat) (i : Inputs) :
+    SwOutcome :=
+  let st := scanLinks links i
+  match st.dests[r % st.dests.length]? with
+  | some d => .forward d.scid
+  | none =>
+    if nodeMode then .fail .unknownNextPeer
+    else match st.errs req with
+      | some f => .fail f
+      | none => .fail .unknownNextPeer
+
+/-- `getLocalLink`: locally initiated payment over an explicit channel (strict). -/
+def getLocalLink (l : Option Cand) (amt timeout height : Nat) : SwOutcome :=
+  match l with
+  | none => .fail .unknownNextPeer
+  | some l =>
+    if l.eligible = false then .fail .localNotEligible
+    else match checkHtlcTransit l.p l.c amt timeout height with
+      | .accept => .forward l.scid
+      | v => .fail (.link v)
+
+end Gen
+
 end LndModel.C09
